@@ -206,7 +206,10 @@ ocp.set_der(v, a)
                 [tau,B] = eval_on_knots(self.xi,dmax-i,subsamples=refine-1)
                 self.B[refine][self.N+d] = B
                 self.tau[refine] = tau
-        self.time[refine] = self.time_grid(self.t0, self.T, self.N*refine)
+        # Refined time grid: every control interval is split into `refine` equal parts
+        # (these are the points at which the basis matrices above are evaluated)
+        [tau_refined,_] = eval_on_knots(self.xi,0,subsamples=refine-1)
+        self.time[refine] = self.t0 + tau_refined*self.T
 
         # Evaluate spline on the control grid
         for L,chains in self.groups.items():
